@@ -40,7 +40,7 @@ CONSTANTS MaxActions,   \* bound on the number of builder actions
           MaxFields,    \* bound on the number of fields
           Kinds,        \* field kinds enabled in this run (subset of DOMAIN KindTable)
           Blocks,       \* enabled block actions, subset of {"para","list","lit","doctest","code","section"}
-          Forms,        \* ways of writing a field enabled in this run, subset of {"plain", "cbullet", "cdef"}
+          Forms,        \* ways of writing a field enabled in this run, subset of {"plain", "cbullet", "cdef", "nsee"}
           FreeChoice    \* TRUE: inline style and verbatim template are free choices
                         \* FALSE: they rotate with the word counter (every one occurs, in varying contexts)
 
@@ -50,9 +50,19 @@ CONSTANTS MaxActions,   \* bound on the number of builder actions
 \*   bold   : w1 B{w2} w3                   italic : I{w1 w2} w3
 \*   code   : w1 C{w2}                      link   : w1 L{w2} w3  (cross reference that does not resolve)
 \*   nest   : B{w1 I{w2}} w3                uri    : w1 U{w2<http://e.org/w2>}
-Styles == <<"plain", "bold", "italic", "code", "link", "nest", "uri">>
+\*   colon  : w1: w2 w3                     (a colon inside running text - napoleon splits lines on colons)
+Styles == <<"plain", "bold", "italic", "code", "link", "nest", "uri", "colon">>
 \*   word   : w1                            (only used for the body of type fields)
-StyleWords == [plain |-> 3, bold |-> 3, italic |-> 3, code |-> 2, link |-> 3, nest |-> 3, uri |-> 2, word |-> 1]
+\* items of a numpy-style "See Also" section (form "nsee"); the referenced NAMES are words too, so that a description
+\* that is lost, or attached to the wrong name, shows in the stream:
+\*   sabare  : w1 <newline> indented: w2 w3 <newline> w4     (bare name, description on the following indented lines)
+\*   sacolon : w1 : w2 w3 <newline> indented: w4              (name : text + continuation line)
+\*   sacomma : w1, w2                                         (comma separated names, no description)
+\*   saname  : w1                                             (bare name without description)
+\*   sacommad: w1, w2 <newline> indented: w3 w4              (comma separated names, then their description)
+StyleWords == [plain |-> 3, bold |-> 3, italic |-> 3, code |-> 2, link |-> 3, nest |-> 3, uri |-> 2, word |-> 1, colon |-> 3,
+               sabare |-> 4, sacolon |-> 4, sacomma |-> 2, saname |-> 1, sacommad |-> 4]
+SeeStyles == {"sabare", "sacolon", "sacomma", "saname", "sacommad"}
 
 \* ------------------------------------------------------------------ verbatim templates
 \* A template is a sequence of lines, a line a sequence of segments; the segment "@M" is replaced by the
@@ -86,13 +96,16 @@ Markers(tpl) == SumSeq([i \in 1..Len(tpl) |-> Len(SelectSeq(tpl[i], LAMBDA s : s
 \* belongs to that attribute's own entry; in a function docstring there is no such entry (row or warning expected).
 KR(entry, args, hosts, once) == [entry |-> entry, args |-> args, hosts |-> hosts, once |-> once]
 FCM == {"function", "class", "module"}
+\* a PROPERTY's docstring is handled apart (astbuilder._handlePropertyDef): a "return" field of a docstring that has no
+\* description BECOMES the description; with a description it is an ordinary field
+FCMP == FCM \cup {"property"}
 KindTable ==
   ( "param"      :> KR("param",   {"pa", "pb"},        {"function", "class"}, "") @@
     "arg"        :> KR("param",   {"pb"},              {"function", "class"}, "") @@
     "keyword"    :> KR("param",   {"kx"},              {"function", "class"}, "") @@
     "type"       :> KR("param",   {"pa"},              {"function"},          "type") @@
-    "return"     :> KR("return",  {""},                {"function"},          "return") @@
-    "returns"    :> KR("return",  {""},                {"function"},          "return") @@
+    "return"     :> KR("return",  {""},                {"function", "property"}, "return") @@
+    "returns"    :> KR("return",  {""},                {"function", "property"}, "return") @@
     "rtype"      :> KR("return",  {""},                {"function"},          "rtype") @@
     "returntype" :> KR("return",  {""},                {"function"},          "rtype") @@
     "yield"      :> KR("yield",   {""},                {"function"},          "yield") @@
@@ -104,12 +117,12 @@ KindTable ==
     "except"     :> KR("raise",   {"OSError"},         {"function", "class"}, "") @@
     "warn"       :> KR("warn",    {"", "UserWarning"}, {"function", "class"}, "") @@
     "warns"      :> KR("warn",    {"UserWarning"},     {"function", "class"}, "") @@
-    "see"        :> KR("see",     {""},                FCM,                   "") @@
-    "seealso"    :> KR("see",     {""},                FCM,                   "") @@
-    "note"       :> KR("note",    {""},                FCM,                   "") @@
-    "author"     :> KR("author",  {""},                FCM,                   "") @@
-    "since"      :> KR("since",   {""},                FCM,                   "") @@
-    "custom"     :> KR("unknown", {"", "ca"},          FCM,                   "") @@
+    "see"        :> KR("see",     {""},                FCMP,                   "") @@
+    "seealso"    :> KR("see",     {""},                FCMP,                   "") @@
+    "note"       :> KR("note",    {""},                FCMP,                   "") @@
+    "author"     :> KR("author",  {""},                FCMP,                   "") @@
+    "since"      :> KR("since",   {""},                FCMP,                   "") @@
+    "custom"     :> KR("unknown", {"", "ca"},          FCMP,                   "") @@
     "ivar"       :> KR("attr",    {"xa"},              {"class", "function"}, "") @@
     "cvar"       :> KR("attr",    {"xb"},              {"class", "function"}, "") @@
     "var"        :> KR("attr",    {"xc"},              {"module", "class", "function"}, "") )
@@ -122,8 +135,12 @@ KindTable ==
 ConsTag == ( "param" :> "Parameters" @@ "arg" :> "Arguments" @@ "keyword" :> "Keywords" @@ "type" :> "Types" @@
              "except" :> "Exceptions" @@ "var" :> "Variables" @@ "ivar" :> "IVariables" @@ "cvar" :> "CVariables" )
 ConsDefKinds == {"param", "arg", "keyword", "var", "ivar", "cvar"}
+\* numpy-style "See Also" section (napoleon NumpyDocstring._parse_numpydoc_see_also_section): a reference list read line
+\* by line; form "nsee" = one item of such a section.  Consecutive nsee fields are the items of ONE section; an item is its
+\* paragraph only (no further blocks).  The item styles are always a free choice: every sequence of item shapes occurs.
 FormsOf(kind) == {"plain"} \cup (IF kind \in DOMAIN ConsTag THEN {"cbullet"} ELSE {})
                           \cup (IF kind \in ConsDefKinds THEN {"cdef"} ELSE {})
+                          \cup (IF kind \in {"see", "seealso"} THEN {"nsee"} ELSE {})
 VarLike == {"ivar", "cvar", "var"}
 TypeLike == {"type", "rtype", "returntype", "ytype", "yieldtype"}
 
@@ -133,13 +150,14 @@ VARIABLES doc,      \* the document built so far
           nf,       \* number of fields started (= current region)
           nact,     \* builder actions used
           nw,       \* words used
-          last,     \* what the last node of the innermost open container is: "none" | "para" | "verb" | "head"
+          last,     \* what the last node of the innermost open container is: "none" | "para" | "verb" | "head";
+                    \* "sealed" = the current field takes no further blocks (See Also item)
           hosts,    \* kinds of object that may still carry this docstring
           once      \* `once` classes already used
 vars == <<doc, lists, sect, nf, nact, nw, last, hosts, once>>
 
 Init == /\ doc = <<>> /\ lists = <<>> /\ sect = 0 /\ nf = 0 /\ nact = 0 /\ nw = 0
-        /\ last = "none" /\ hosts = FCM /\ once = {}
+        /\ last = "none" /\ hosts = FCMP /\ once = {}
 
 Depth == Len(lists)
 Pop(k) == SubSeq(lists, 1, Depth - k)
@@ -153,7 +171,7 @@ Step(n) == /\ nact < MaxActions /\ nact' = nact + 1 /\ nw' = nw + n
 
 \* ---- AddPara: a further paragraph in the container reached after closing `up` lists
 AddPara(up, st) ==
-    /\ "para" \in Blocks
+    /\ "para" \in Blocks /\ last # "sealed"
     /\ Step(StyleWords[st])
     /\ doc' = Append(doc, Para(Depth - up, st))
     /\ lists' = Pop(up) /\ last' = "para"
@@ -162,7 +180,7 @@ AddPara(up, st) ==
 \* ---- OpenList + its first AddItem (an empty list is not a document); a list never directly follows a list
 \*      that was just closed in the same container (the two could not be told apart in any markup): up = 0
 OpenList(lt, st) ==
-    /\ "list" \in Blocks /\ Depth < MaxDepth
+    /\ "list" \in Blocks /\ Depth < MaxDepth /\ last # "sealed"
     /\ Step(StyleWords[st])
     /\ doc' = doc \o << [t |-> "item", reg |-> nf, lv |-> Depth + 1, lt |-> lt, n |-> 1],
                         Para(Depth + 1, st) >>
@@ -190,13 +208,13 @@ AddLiteral(v) ==
     /\ last' = "verb"
     /\ UNCHANGED <<lists, sect, nf, hosts, once>>
 AddDoctest(up, v) ==
-    /\ "doctest" \in Blocks
+    /\ "doctest" \in Blocks /\ last # "sealed"
     /\ Step(1)
     /\ doc' = Append(doc, Verb("doctest", Depth - up, v))
     /\ lists' = Pop(up) /\ last' = "verb"
     /\ UNCHANGED <<sect, nf, hosts, once>>
 AddCode(up, v) ==
-    /\ "code" \in Blocks
+    /\ "code" \in Blocks /\ last # "sealed"
     /\ Step(1)
     /\ doc' = Append(doc, Verb("code", Depth - up, v))
     /\ lists' = Pop(up) /\ last' = "verb"
@@ -212,15 +230,16 @@ OpenSection(level) ==
 
 \* ---- AddField(kind, arg, host, style, form): fields come last, each starts with a paragraph (a type is one word)
 HostChoice(kind) == LET hs == hosts \cap KindTable[kind].hosts
-                    IN IF kind \in VarLike THEN {{x} : x \in hs} ELSE IF hs = {} THEN {} ELSE {hs}
+                    IN IF kind \in VarLike \cup {"return", "returns"} THEN {{x} : x \in hs}
+                       ELSE IF hs = {} THEN {} ELSE {hs}
 AddField(kind, arg, h, st, form) ==
     /\ nf < MaxFields
     /\ KindTable[kind].once \notin once
     /\ Step(StyleWords[st])
     /\ doc' = doc \o << [t |-> "field", reg |-> nf + 1, lv |-> 0, kind |-> kind, arg |-> arg, form |-> form,
-                         ctag |-> IF form = "plain" THEN "" ELSE ConsTag[kind]],
+                         ctag |-> IF form = "plain" THEN "" ELSE IF form = "nsee" THEN "See Also" ELSE ConsTag[kind]],
                         [Para(0, st) EXCEPT !.reg = nf + 1] >>
-    /\ nf' = nf + 1 /\ lists' = <<>> /\ last' = "para" /\ hosts' = h
+    /\ nf' = nf + 1 /\ lists' = <<>> /\ last' = (IF form = "nsee" THEN "sealed" ELSE "para") /\ hosts' = h
     /\ once' = IF KindTable[kind].once = "" THEN once ELSE once \cup {KindTable[kind].once}
     /\ UNCHANGED sect
 
@@ -231,12 +250,14 @@ Next == \/ \E up \in 0..Depth, st \in StyleChoice : AddPara(up, st) \/ AddItem(u
                                  \/ \E c \in VarChoice("code") : AddCode(up, c)
         \/ \E level \in 1..2 : OpenSection(level)
         \/ \E kind \in Kinds : \E arg \in KindTable[kind].args : \E h \in HostChoice(kind) :
-               \E st \in (IF kind \in TypeLike THEN {"word"} ELSE StyleChoice) : \E form \in FormsOf(kind) \cap Forms :
+               \E form \in FormsOf(kind) \cap Forms :
+                 \E st \in (IF form = "nsee" THEN SeeStyles ELSE IF kind \in TypeLike THEN {"word"} ELSE StyleChoice) :
                    AddField(kind, arg, h, st, form)
 Spec == Init /\ [][Next]_vars
 
 \* ================================================================== the oracle (property C09)
-Host == IF "function" \in hosts THEN "function" ELSE IF "class" \in hosts THEN "class" ELSE "module"
+Host == IF "function" \in hosts THEN "function" ELSE IF "class" \in hosts THEN "class"
+        ELSE IF "module" \in hosts THEN "module" ELSE "property"
 IsVerb(n) == n.t \in {"lit", "doctest", "code"}
 NodeWords(n) == IF n.t \in {"para", "head"} THEN n.w
                 ELSE IF IsVerb(n) THEN [i \in 1..Markers(Templates[n.t][n.var]) |-> n.m]
@@ -255,7 +276,9 @@ Fields(d) == [k \in 1..Len(FieldNodes(d)) |->
                 [kind |-> f.kind, arg |-> f.arg, entry |-> KindTable[f.kind].entry,
                  \* where the text must show: in a row of the object's own field table, or in the entry of the
                  \* attribute that the field documents
-                 where |-> IF f.kind \in VarLike /\ Host \in {"class", "module"} THEN "attribute" ELSE "row",
+                 where |-> IF f.kind \in VarLike /\ Host \in {"class", "module"} THEN "attribute"
+                           ELSE IF Host = "property" /\ f.kind = "return" /\ Text(d) = <<>> THEN "description"
+                           ELSE "row",
                  words |-> RegionWords(d, k), verb |-> RegionVerb(d, k)]]
 
 \* sanity of the generator itself (design level): every word 1..nw is expected exactly once somewhere,
